@@ -288,6 +288,14 @@ def crosscheck(ck, gen, live):
     """generated tables vs live database / classes.  A difference means the extractor no longer mirrors the loader (or the generated
     part became unreadable): recorded as a broken obligation (-> no-failing-input-found), never an exception.  Returns the maps
     live layout index -> generated layout index and kind label -> generated kind index used to address the model driver."""
+    try:
+        return _crosscheck(ck, gen, live)
+    except Exception as exc:  # noqa: BLE001 - an unreadable generated part is a broken obligation, not a crash
+        ck.broken.append(f"generated BimgTables cannot be compared with the live database / segment classes: {type(exc).__name__}: {str(exc)[:200]}")
+        return {}, {}
+
+
+def _crosscheck(ck, gen, live):
     problems = list((gen or {}).get("problems") or [])
     gen = gen or {"kinds": [], "layouts": [], "rows": []}
     gk = {k.get("label"): i for i, k in enumerate(gen.get("kinds", []))}
@@ -312,7 +320,7 @@ def crosscheck(ck, gen, live):
              and r["layout"] < len(gen["layouts"]) else None, r.get("fcb_supported"), r.get("usable")) for r in gen.get("rows", [])}
     lrows = {(r["family"], r["revision"], r["mem_type"]): (norm(live, live["layouts"][r["layout"]]), r["fcb_supported"], r["usable"]) for r in live["rows"]}
     if grows != lrows:
-        diff = sorted(k for k in set(grows) | set(lrows) if grows.get(k) != lrows.get(k))
+        diff = sorted((k for k in set(grows) | set(lrows) if grows.get(k) != lrows.get(k)), key=str)
         problems.append(f"{len(diff)} (family, revision, memory type) rows differ, e.g. {diff[:2]}: generated {grows.get(diff[0])} live {lrows.get(diff[0])}")
     for key in ("fcb_tag", "fcb_tag_swapped", "mem_types", "fcb_families"):
         if gen.get(key) != live[key]:
